@@ -250,7 +250,7 @@ theorem sinv_producer (s : State) (cur : Option ThreadId) (h : SInv s cur)
 
 theorem sinv_beginPoll (s : State) (cur : Option ThreadId) (i : Nat) (a : Awaiter)
     (h : SInv s cur) (hc : cur = none ∨ cur = some (i + 1))
-    (hpc : (s.aw i).pc = .start ∨ (s.aw i).pc = .parked) :
+    (_hpc : (s.aw i).pc = .start ∨ (s.aw i).pc = .parked) :
     SInv (beginPoll s i a) (if midPoll (beginPoll s i a) (i + 1) then some (i + 1) else none) := by
   obtain ⟨hu0, hua, hcc, hb1, hb2, ha⟩ := h
   have nomid0 : s.ppc ≠ .entered ∧ s.ppc ≠ .stored ∧ s.ppc ≠ .drained := by
@@ -421,7 +421,7 @@ structure MInv (N : Nat) (s : State) : Prop where
 theorem getElem?_mem' {α} (l : List α) (k : Nat) (a : α) (h : l[k]? = some a) : a ∈ l :=
   List.mem_of_getElem? h
 
-theorem minv_opDone (N : Nat) (s : State) (i : Nat) (p : Party) (r : Res) (hi : i < N)
+theorem minv_opDone (N : Nat) (s : State) (i : Nat) (p : Party) (r : Res) (_hi : i < N)
     (h : MInv N s) (hp : p.prog = (s.ps i).prog) (hh : p.holding = false) (hih : p.isHold = false)
     (hrw : s.rw ≠ some i) : MInv N (opDone s i p r) := by
   obtain ⟨hn, hno, hg, hnh, hrw'⟩ := h
@@ -564,6 +564,9 @@ theorem run_inv (N : Nat) (sched : List ThreadId) : ∀ s, MInv N s → MInv N (
 
 def NoHold (progs : List (List Op)) : Prop := ∀ p ∈ progs, ∀ o ∈ p, o ≠ Op.hold
 
+instance (progs : List (List Op)) : Decidable (NoHold progs) := by
+  unfold NoHold; infer_instance
+
 theorem init_inv (clean : Bool) (progs : List (List Op)) (hn : NoHold progs) :
     MInv progs.length (init clean progs) := by
   constructor <;> simp [init]
@@ -611,7 +614,7 @@ theorem free_enabled (N : Nat) (s : State) (i : Nat) (h : MInv N s) (hr : s.rw =
   obtain ⟨hn, hno, hg, hnh, hrw⟩ := h
   unfold micro
   simp only [hr, hg]
-  cases hpc : (s.ps i).pc <;> simp [hpc]
+  cases hpc : (s.ps i).pc <;> simp
   -- atOp: the party is not finished, so there is a current op
   simp only [finished, hpc, beq_self_eq_true, Bool.true_and, decide_eq_false_iff_not, ge_iff_le, Nat.not_le] at hf
   have : (s.ps i).prog[(s.ps i).k]? = some (s.ps i).prog[(s.ps i).k] := List.getElem?_eq_getElem hf
